@@ -1,8 +1,10 @@
 // Command translator reads /repo's current Go source (packages ipam and multicidrset, without
 // the verif build tag) through go/packages + go/ssa and emits program facts as Gallina data:
-//   Facts_lock.v  -- per function: lock discipline, callees, shared-state accesses, blocking ops, entry points (C16)
-//   Facts_mut.v   -- per function: stores / mutating calls on values derived from informer-cache objects (C20)
-//   Facts_startup.v -- order of the start-up actions in main.go (C03)
+//
+//	Facts_lock.v  -- per function: lock discipline, callees, shared-state accesses, blocking ops, entry points (C16)
+//	Facts_mut.v   -- per function: stores / mutating calls on values derived from informer-cache objects (C20)
+//	Facts_startup.v -- order of the start-up actions in main.go (C03)
+//
 // and the same facts as JSON (for locating the offending path when a check fails).
 package main
 
@@ -34,14 +36,14 @@ var tracked = map[string]map[string]bool{
 }
 
 type fnFacts struct {
-	Name     string   `json:"name"`
-	Pos      string   `json:"pos"`
-	Lock     string   `json:"lock"` // none | locks | irregular
-	Calls    []string `json:"calls"`
-	Touches  []string `json:"touches"`
-	Blocks   []string `json:"blocks"`
-	Entry    string   `json:"entry"` // "" or reason
-	CacheW   []string `json:"cache_writes"`
+	Name    string   `json:"name"`
+	Pos     string   `json:"pos"`
+	Lock    string   `json:"lock"` // none | locks | irregular
+	Calls   []string `json:"calls"`
+	Touches []string `json:"touches"`
+	Blocks  []string `json:"blocks"`
+	Entry   string   `json:"entry"` // "" or reason
+	CacheW  []string `json:"cache_writes"`
 }
 
 func fail(format string, a ...interface{}) {
@@ -103,7 +105,7 @@ func main() {
 	mutSites = runMut(prog, fns, handlers)
 	emitMut(outDir, names, facts)
 	emitStartup(outDir, prog, mainPkg)
-	emitSvc(outDir, prog, fns)
+	emitSvc(outDir, prog, fns, facts)
 	b, _ := json.MarshalIndent(map[string]interface{}{"functions": facts, "order": names, "cache_write_sites": mutSites}, "", " ")
 	_ = os.WriteFile(outDir+"/facts.json", b, 0o644)
 }
@@ -146,7 +148,15 @@ func resolveParamCalls(facts map[string]*fnFacts) {
 				if !have {
 					ff.Calls = append(ff.Calls, pp.fn.String())
 					sort.Strings(ff.Calls)
+					if paramEdges[pp.callee.String()] == nil {
+						paramEdges[pp.callee.String()] = map[string]bool{}
+					}
+					paramEdges[pp.callee.String()][pp.fn.String()] = true
 				}
+				if directEdges[pp.caller.String()] == nil {
+					directEdges[pp.caller.String()] = map[string]bool{}
+				}
+				directEdges[pp.caller.String()][pp.fn.String()] = true
 			}
 		} else if _, ok := passedOut[pp.fn.String()]; !ok {
 			passedOut[pp.fn.String()] = "passed to " + pp.callee.String() + ", which does not invoke it itself"
@@ -456,9 +466,17 @@ func analyze(prog *ssa.Program, f *ssa.Function, all map[*ssa.Function]bool) *fn
 				}
 			}
 			if mi, ok := ins.(*ssa.MakeInterface); ok {
-				// a value of one of our types converted to an interface may have any of its methods called by the receiver
+				// a value of one of our types converted to an interface may have the methods of that interface called by the
+				// receiver (methods outside the interface's method set are not reachable through it)
+				var inIface map[string]bool
+				if it, ok := mi.Type().Underlying().(*types.Interface); ok {
+					inIface = map[string]bool{}
+					for i := 0; i < it.NumMethods(); i++ {
+						inIface[it.Method(i).Name()] = true
+					}
+				}
 				for g := range all {
-					if g.Signature.Recv() != nil && types.Identical(deref(g.Signature.Recv().Type()), deref(mi.X.Type())) {
+					if g.Signature.Recv() != nil && types.Identical(deref(g.Signature.Recv().Type()), deref(mi.X.Type())) && (inIface == nil || inIface[g.Name()]) {
 						calls[g.String()] = true
 					}
 				}
@@ -501,12 +519,34 @@ var paramInvoked = map[*ssa.Function]map[int]bool{}
 type paramPass struct {
 	callee *ssa.Function
 	idx    int
-	fn     *ssa.Function // a function value of ours passed for that parameter, or nil
+	fn     *ssa.Function  // a function value of ours passed for that parameter, or nil
 	param  *ssa.Parameter // or: the caller's own parameter handed on
 	caller *ssa.Function
 }
 
 var paramPasses []paramPass
+
+// for reachability questions a function value passed to a helper that invokes it is called "by the caller" (one level of
+// context): paramEdges are the helper -> value edges added to the lock graph, directEdges the caller -> value edges
+var paramEdges = map[string]map[string]bool{}
+var directEdges = map[string]map[string]bool{}
+
+func reachableCtx(facts map[string]*fnFacts, roots []string, blocked map[string]bool) map[string]bool {
+	ctx := map[string]*fnFacts{}
+	for n, ff := range facts {
+		var calls []string
+		for _, c := range ff.Calls {
+			if !paramEdges[n][c] {
+				calls = append(calls, c)
+			}
+		}
+		for c := range directEdges[n] {
+			calls = append(calls, c)
+		}
+		ctx[n] = &fnFacts{Name: n, Calls: calls}
+	}
+	return reachableFrom(ctx, roots, blocked)
+}
 
 func paramIndex(f *ssa.Function, p *ssa.Parameter) int {
 	for i, q := range f.Params {
@@ -653,13 +693,50 @@ func emitMut(dir string, names []string, facts map[string]*fnFacts) {
 }
 
 func emitStartup(dir string, prog *ssa.Program, mainPkg *ssa.Package) {
-	// order, in runControllers, of: listing the nodes, constructing the allocator (with that list), starting the informers, Run
+	// order, in runControllers (callees of package main inlined), of: listing the nodes, constructing the allocator (with
+	// that list), starting the informers, Run
 	order := map[string]int{}
 	passesList := false
+	isList := func(cc *ssa.CallCommon) bool {
+		name := calleeName(cc)
+		return strings.Contains(name, "NodeInterface.List") || (cc.IsInvoke() && cc.Method.Name() == "List" && strings.Contains(cc.Value.Type().String(), "NodeInterface"))
+	}
+	cl := func(cc *ssa.CallCommon, ins ssa.Instruction) string {
+		name := calleeName(cc)
+		switch {
+		case isList(cc):
+			return "list"
+		case strings.HasSuffix(name, "ipam.NewMultiCIDRRangeAllocator"):
+			return "construct"
+		case cc.IsInvoke() && cc.Method.Name() == "Start" && strings.Contains(cc.Value.Type().String(), "SharedInformerFactory"):
+			return "start"
+		case cc.IsInvoke() && cc.Method.Name() == "Run" && strings.Contains(cc.Value.Type().String(), "CIDRAllocator"):
+			return "run"
+		}
+		return ""
+	}
+	other := func(ins ssa.Instruction) string {
+		if g, ok := ins.(*ssa.Go); ok {
+			gc := g.Common()
+			if gc.IsInvoke() && gc.Method.Name() == "Run" {
+				return "run"
+			}
+		}
+		return ""
+	}
+	inMain := func(g *ssa.Function) bool { return mainPkg != nil && g.Pkg == mainPkg }
 	if mainPkg != nil {
 		if f := mainPkg.Func("runControllers"); f != nil {
-			n := 0
-			var listVal ssa.Value
+			tr := traceOf(f, map[*ssa.Function]bool{}, cl, other, inMain)
+			for i, e := range tr {
+				if _, ok := order[e]; !ok || e == "construct" || e == "run" {
+					order[e] = i + 1
+				}
+			}
+			// the node list argument (7th) of the constructor must come from the List call: directly, or through a function of
+			// package main that performs it
+			var srcs []ssa.Value
+			var ctorCall *ssa.CallCommon
 			for _, b := range f.Blocks {
 				for _, ins := range b.Instrs {
 					c, ok := ins.(ssa.CallInstruction)
@@ -667,34 +744,29 @@ func emitStartup(dir string, prog *ssa.Program, mainPkg *ssa.Package) {
 						continue
 					}
 					cc := c.Common()
-					name := calleeName(cc)
-					n++
-					switch {
-					case strings.Contains(name, "NodeInterface.List") || (cc.IsInvoke() && cc.Method.Name() == "List" && strings.Contains(cc.Value.Type().String(), "NodeInterface")):
-						if _, ok := order["list"]; !ok {
-							order["list"] = n
-							if v, ok := ins.(ssa.Value); ok {
-								listVal = v
+					if isList(cc) {
+						if v, ok := ins.(ssa.Value); ok {
+							srcs = append(srcs, v)
+						}
+					} else if sc := cc.StaticCallee(); sc != nil && inMain(sc) {
+						for _, e := range traceOf(sc, map[*ssa.Function]bool{}, cl, other, inMain) {
+							if e == "list" {
+								if v, ok := ins.(ssa.Value); ok {
+									srcs = append(srcs, v)
+								}
+								break
 							}
 						}
-					case strings.HasSuffix(name, "ipam.NewMultiCIDRRangeAllocator"):
-						order["construct"] = n
-						// the node list argument (7th) must come from the List call
-						if len(cc.Args) >= 7 && listVal != nil {
-							passesList = derivesFrom(cc.Args[6], listVal, 6)
-						}
-					case cc.IsInvoke() && cc.Method.Name() == "Start" && strings.Contains(cc.Value.Type().String(), "SharedInformerFactory"):
-						if _, ok := order["start"]; !ok {
-							order["start"] = n
-						}
-					case cc.IsInvoke() && cc.Method.Name() == "Run" && strings.Contains(cc.Value.Type().String(), "CIDRAllocator"):
-						order["run"] = n
 					}
-					if g, ok := ins.(*ssa.Go); ok {
-						gc := g.Common()
-						if gc.IsInvoke() && gc.Method.Name() == "Run" {
-							order["run"] = n
-						}
+					if strings.HasSuffix(calleeName(cc), "ipam.NewMultiCIDRRangeAllocator") {
+						ctorCall = cc
+					}
+				}
+			}
+			if ctorCall != nil && len(ctorCall.Args) >= 7 {
+				for _, src := range srcs {
+					if derivesFrom(ctorCall.Args[6], src, 6) {
+						passesList = true
 					}
 				}
 			}
